@@ -118,7 +118,7 @@ Section StmtG.
       - destruct (sd_to sd) as [|b0 r0] eqn:Et.
         + constructor; [apply Hwa; [apply same_id_refl|apply wf_ctx_proc, Hwfe] | reflexivity | reflexivity | repeat split | reflexivity | discriminate | apply store_same| cbt].
         + constructor; [apply Hwa; [apply same_id_refl|apply wf_ctx_proc, Hwfe] | reflexivity | reflexivity | repeat split | reflexivity | discriminate | apply store_same| cbt].
-      - destruct (Hws (c_plugs e) Hpl) as (str & Hstr & Hlen). rewrite send_arg_new, Hstr.
+      - destruct (Hws (c_plugs e) Hpl) as (str & Hstr). rewrite send_arg_new, Hstr.
         assert (Hfix : SEND_OVERRUN_ASSERT = false) by reflexivity.      (* source fact: the assert is gone (F38) *)
         destruct (Nat.ltb (Z.to_nat MAX_DEV_BUF - length (sd_to sd)) (length str)) eqn:El.
         { rewrite Hfix. cbn [sd_to set_to].
